@@ -241,6 +241,12 @@ def _set_board_keeps_table(P):
         if t["k"] == "call" and t["f"].get("fn") == NEW:
             t["f"]["fn"] = t["f"]["fn_args"] = "chess_engine::ThreeFold::keep"
 
+@rule("C15.R7", "premise: position identity used by the repetition table = (placement, side to move, castling rights, en-passant file), consistently in Eq and Hash (C04.R3, C04.R4 re-run)")
+def r_premise2(ctx):
+    from analysis.runner import premise
+    premise(ctx, "C04", {"C04.R3", "C04.R4"}, "the repetition table is keyed by Board; what makes two boards equal (and hash alike) is no longer exactly the position")
+
+
 @rule("C15.R6", "premise: Board::move_mut applies a move only if it is in the generated legal list (C02.R6 re-run)")
 def r_premise(ctx):
     from analysis.runner import premise
